@@ -90,6 +90,11 @@ func (man *chunkManager) OnChunkConsumed(chunk base.LogChunk) {
 func (man *chunkManager) OnChunkLeftover(chunk base.LogChunk) {
 	man.logger.Debugf("save leftover id=%s len=%d", chunk.ID, len(chunk.Data))
 	man.operator.UnloadChunk(&chunk)
+	if !chunk.Saved {
+		// the chunk could not be saved (no dir, space limit or I/O error) and is lost: count it as dropped, not leftover
+		man.OnChunkDropped(chunk)
+		return
+	}
 	man.metrics.pendingChunks.Dec()
 	man.metrics.leftoverChunksTotal.Inc()
 }
